@@ -160,6 +160,10 @@ type ReplayFile struct {
 	Trace    []string    `json:"trace,omitempty"`
 	Shrink   string      `json:"shrink,omitempty"`
 	SiteHash string      `json:"site_table_hash,omitempty"`
+	// History-dependent violations (state that survives from one simulated run to the next inside one OS process, e.g. a
+	// process-wide cache): the replay first executes the runs PrefixFrom..Index-1 of batch Base, then this run.
+	PrefixFrom *uint64 `json:"prefix_from,omitempty"`
+	Base       uint64  `json:"base,omitempty"`
 }
 
 var baseDir string
@@ -403,6 +407,12 @@ func TestSim(t *testing.T) {
 			panic("replay file is for " + rf.Property)
 		}
 		t0 := time.Now()
+		if rf.PrefixFrom != nil {
+			for i := *rf.PrefixFrom; i < rf.Index; i++ {
+				sd := simrt.Mix(rf.Base, prop, i)
+				runOne(t, prop, i, sd, simrt.NewTape(sd), rf.Mode, faultsOf(i), false)
+			}
+		}
 		tape := simrt.ReplayTape(rf.Seed, rf.Streams)
 		if rf.Mode == simrt.ModeFree {
 			// leg B replays re-generate the run from its seed (the interleaving is the real scheduler's)
@@ -428,6 +438,38 @@ func TestSim(t *testing.T) {
 	if os.Getenv("SIM_SHRINK") != "" {
 		idx := uint64(envInt("SIM_SHRINK", 0))
 		seed := simrt.Mix(base, prop, idx)
+		if os.Getenv("SIM_PREFIX_FROM") != "" {
+			// history-dependent violation: execute the earlier runs of the worker's chunk first, no shrinking
+			from := uint64(envInt("SIM_PREFIX_FROM", 0))
+			for i := from; i < idx; i++ {
+				sd := simrt.Mix(base, prop, i)
+				runOne(t, prop, i, sd, simrt.NewTape(sd), mode, faultsOf(i), false)
+			}
+			tape := simrt.NewTape(seed)
+			rc := runOne(t, prop, idx, seed, tape, mode, faultsOf(idx), true)
+			class := os.Getenv("SIM_SHRINK_CLASS")
+			msg := ""
+			for _, v := range rc.Viol {
+				if v.Class == class {
+					msg = v.Msg
+					break
+				}
+			}
+			if msg == "" {
+				fmt.Println("SHRINK-NOREPRO (with the runs", from, "to", idx, "executed first)")
+				return
+			}
+			tr := rc.TraceLog
+			if len(tr) > 400 {
+				tr = append(tr[:200:200], append([]string{fmt.Sprintf("… %d steps elided …", len(tr)-400)}, tr[len(tr)-200:]...)...)
+			}
+			note := fmt.Sprintf("not minimised: the violation depends on state left behind by earlier simulated runs in the same process; the replay executes runs %d..%d of batch %d first", from, idx-1, base)
+			rf := ReplayFile{Property: prop, Index: idx, Seed: seed, Faults: faultsOf(idx), Mode: mode, Tier: os.Getenv("SIM_TIER"), Streams: tape.Snapshot(), Class: class, Message: msg,
+				Workload: rc.Sample, Fired: rc.Fired, Trace: tr, Shrink: note, SiteHash: os.Getenv("SIM_SITEHASH"), PrefixFrom: &from, Base: base}
+			writeJSON(os.Getenv("SIM_REPLAY_OUT"), rf)
+			fmt.Printf("SHRINK-DONE class=%s %s\n", class, note)
+			return
+		}
 		tape := simrt.NewTape(seed)
 		rc := runOne(t, prop, idx, seed, tape, mode, faultsOf(idx), false)
 		if len(rc.Viol) == 0 {
